@@ -317,7 +317,7 @@ func opRun(c *wire.Case, res *wire.Result) {
 			var j, fj string
 			func() {
 				defer func() { recover() }()
-				_, _ = buf.Json(), buf.FormattedJson() // rendered with its own matches last of all ...
+				_, _ = buf.Json(), buf.FormattedJson()  // rendered with its own matches last of all ...
 				copy(buf, kept[b].ms)                   // ... refilled in place ...
 				j, fj = buf.Json(), buf.FormattedJson() // ... and rendered again
 			}()
@@ -539,7 +539,30 @@ func opRunFiles(c *wire.Case, res *wire.Result) {
 	}
 	startFileMon(truths)
 	mode := parseMode(c.Mode)
+	if c.FdLimit > 0 {
+		// a process may hold FdLimit descriptors at a time (1024 is a common default, 256 another)
+		var lim syscall.Rlimit
+		if syscall.Getrlimit(syscall.RLIMIT_NOFILE, &lim) == nil {
+			old := lim
+			lim.Cur = uint64(c.FdLimit)
+			syscall.Setrlimit(syscall.RLIMIT_NOFILE, &lim)
+			defer syscall.Setrlimit(syscall.RLIMIT_NOFILE, &old)
+		}
+		res.Counters = map[string]int{"fds_before": countFds()}
+	}
 	r, ms := monitoredRun(c, func() engine.Matches { return v.RunFiles(c.Files, mode, false) })
+	for k := 1; k < c.Rounds && r.Panic == nil && r.Budget == ""; k++ {
+		r2, _ := monitoredRun(c, func() engine.Matches { return v.RunFiles(c.Files, mode, false) })
+		if r2.Panic != nil || r2.Budget != "" {
+			r = r2
+		}
+		if res.Counters != nil {
+			res.Counters["calls"] = k + 1
+		}
+	}
+	if c.FdLimit > 0 {
+		res.Counters["fds_after"] = countFds()
+	}
 	stopFileMon(&r)
 	if ms == nil {
 		ms = engine.Matches{}
@@ -1008,4 +1031,12 @@ func opSession(c *wire.Case, res *wire.Result) {
 		}
 		res.StepResults = append(res.StepResults, sr)
 	}
+}
+
+func countFds() int {
+	es, err := os.ReadDir("/proc/self/fd")
+	if err != nil {
+		return -1
+	}
+	return len(es)
 }
